@@ -697,10 +697,17 @@ class Fxp():
             vdtype = type(val)
 
         elif isinstance(val, (np.ndarray, np.generic)):
-            if isinstance(val, object):
-                vdtype = type(val.item(0))
+            if val.dtype == object and val.size > 1:
+                # an object array may mix Python integers, floats and complex numbers: the widest type decides
+                _items = np.asarray(val).flatten().tolist()
+                if any(isinstance(v, (complex, np.complexfloating)) for v in _items):
+                    vdtype = complex
+                elif any(isinstance(v, (float, np.floating)) for v in _items):
+                    vdtype = float
+                else:
+                    vdtype = type(val.item(0))
             else:
-                vdtype = val.dtype
+                vdtype = type(val.item(0))
             
             try:
                 if isinstance(val, np.float128):
@@ -736,9 +743,8 @@ class Fxp():
                 # estimate n_frac from decimal precision
                 self.n_frac = n_frac = int(np.ceil(math.log2(10**int(getcontext().prec))))
 
-            # force return raw value for better precision
-            val = int(val * 2**(self.n_frac))
-            raw = True
+            # the exact rational value: quantized like any other value, by the configured rounding
+            val = Fraction(val)
 
         else:
             raise ValueError('Not supported input type: {}'.format(type(val)))
@@ -749,6 +755,11 @@ class Fxp():
             val = np.array(val, dtype=object)
         else:
             val = np.array(val)
+
+        if val.dtype == object and val.size > 0 and any(isinstance(v, Decimal) for v in val.flatten()):
+            # Decimal elements of a list / tuple / array: exact rationals, like a Decimal scalar
+            val = np.array([Fraction(v) if isinstance(v, Decimal) else v for v in val.flatten()] + [None], dtype=object)[:-1].reshape(val.shape)
+            vdtype = float
 
         if vdtype is None:
             vdtype = val.dtype
@@ -877,7 +888,9 @@ class Fxp():
             _is_int_val = val.dtype != object and np.issubdtype(val.dtype, np.integer) or \
                 (val.dtype == object and all(isinstance(v, (int, np.integer)) for v in val.flatten()))
             if val.dtype == object and any(isinstance(v, Fraction) for v in val.flatten()):
-                _use_pyint = True       # exact rationals (a rescaled raw value of more than 53 bits): rounded exactly
+                _use_pyint = True       # exact rationals (a rescaled raw value of more than 53 bits, a Decimal): rounded exactly
+                if not isinstance(conv_factor, int):
+                    conv_factor = Fraction(1, 1 << -self.n_frac)
             elif _is_int_val and not isinstance(conv_factor, int) and max(abs(int(np.max(val))), abs(int(np.min(val)))) >= 2**53:
                 # negative n_frac (the factor is a float): integers of more than 53 bits are scaled as exact rationals
                 conv_factor = Fraction(1, 1 << -self.n_frac)
